@@ -19,7 +19,11 @@ elab "#audit_module " m:ident : command => do
     if env.getModuleIdxFor? n == some modIdx then
       match ci with
       | .thmInfo _ =>
-        if !n.isInternal then names := names.push n
+        -- skip compiler-generated lemmas (constructor injectivity, equation lemmas, …)
+        let last := match n with | .str _ s => s | _ => ""
+        let auto := last == "inj" || last == "injEq" || last == "sizeOf_spec" || last == "eq_def" ||
+          last == "congr_simp" || last.startsWith "eq_" || last.startsWith "match_" || last.startsWith "_"
+        if !n.isInternal && !auto then names := names.push n
       | _ => pure ()
   let sorted := names.qsort (fun a b => a.toString < b.toString)
   for n in sorted do
